@@ -1,4 +1,6 @@
 """Helpers shared by the property modules (harness side only; nothing here is in /repo)."""
+import logging
+logging.disable(logging.CRITICAL)      # log records read the clock, which CrossHair makes symbolic: every logging call would fork paths
 import datetime
 from typing import Optional, Union
 
